@@ -22,7 +22,7 @@ PLAN  = {"quick":    {"shards": 16, "cases": 32,  "timeout": 1500, "budget_s": 1
          "thorough": {"shards": 16, "cases": 320, "timeout": 7000, "budget_s": 1500, "points": 400, "mp_every": 25}}
 REQUIRED = ["oracle.resumed==reference", "oracle.no-recorded-triple-reevaluated", "oracle.pending-evaluated-once", "oracle.no-duplicate-record",
             "oracle.from_file==returned", "crash.record-boundary", "crash.inside-record", "crash.gz", "kill.prefix-model-validated",
-            "resume.multiproc", "big-log.cases", "observed.logs-with-non-ascii-params", "oracle.from_file-on-killed-file"]
+            "resume.multiproc", "big-log.cases", "observed.logs-with-non-ascii-params", "oracle.from_file-on-killed-file", "logs.records-in-arrival-order-of-several-workers"]
 ASSUMPTIONS = ["a killed run leaves a byte-prefix of the log it would have written (validated by the real-kill runs: append only, flush per line, single writer)",
                "only complete records count as recorded; parameter records (E/L/V) may legitimately be written again"]
 
@@ -37,7 +37,7 @@ def gen_case(rng):
             seen.add(l["kind"])
     for g in spec["groups"]:
         g["n"] = min(g["n"], 6); g["filters"] = [f for f in g["filters"] if f[0] != "sleepy"]
-    return {"spec": spec, "gz": rng.random() < .35, "seed": rng.randrange(1 << 30)}
+    return {"spec": spec, "gz": rng.random() < .35, "seed": rng.randrange(1 << 30), "arrival": rng.randrange(1 << 30) if rng.random() < .3 else None}
 
 def _members(blob):
     """end offsets of the gzip members in blob"""
@@ -135,7 +135,22 @@ def check_case(case, ctx=None, only_points=None):
         ref, idx = X.run_inproc(spec, (1, 0, 0), result_file=refp)
         cref = X.canon_result(ref)
         blob = open(refp, "rb").read()
+        blob_written = blob                                  # what the (single-process) reference run really wrote: used by the real-kill validation
         recs = _records(blob, gz)
+        if case.get("arrival") is not None and len(recs) > 4:
+            # the log of a multi-process run holds the records in arrival order: the records behind the header are dealt to a few
+            # worker streams (each keeps its order) and the streams are interleaved
+            note("logs.records-in-arrival-order-of-several-workers")
+            prng = random.Random(case["arrival"])
+            spans = list(dict.fromkeys((s_, e_) for s_, e_, _ in recs))
+            head, rest = spans[:2], spans[2:]
+            k = prng.choice([2, 3, 4]); streams = [[] for _ in range(k)]
+            for sp in rest: streams[prng.randrange(k)].append(sp)
+            order = []
+            while any(streams):
+                st = prng.choice([x for x in streams if x]); order.append(st.pop(0))
+            blob = b"".join(blob[s_:e_] for s_, e_ in head + order)
+            recs = _records(blob, gz)
         if any(l.get("uni") for l in spec["lrns"]) and any(r[0] == "L" and "note" in json.dumps(r[2:] if len(r) > 2 else r) for _, _, r in recs):
             note("observed.logs-with-non-ascii-params")
         ek, lk, vk = _keys_from_reference(ref)
@@ -248,7 +263,7 @@ def check_case(case, ctx=None, only_points=None):
                 viol.append((f"final-file/from_file-raised:{type(e).__name__}/{feat}", str(e)[:200]))
         # ---- prefix-model validation with a real kill
         if only_points is None and (ctx is None or ctx.time_left() > 0):
-            k = rng.randrange(1, len(gzip.decompress(blob)) if gz else len(blob))      # bytes handed to the (Gzip)file object
+            k = rng.randrange(1, len(gzip.decompress(blob_written)) if gz else len(blob_written))      # bytes handed to the (Gzip)file object
             kp = os.path.join(wd, "kill" + ext)
             inp = os.path.join(wd, "kill.json")
             with open(inp, "w") as f: json.dump({"spec": spec, "path": kp, "k": k}, f)
@@ -261,7 +276,7 @@ def check_case(case, ctx=None, only_points=None):
                     # gzip headers carry a timestamp, so members are compared by content: what can be decompressed from the
                     # disk (complete members + the flushed part of the member being written) must be a prefix of the log text
                     note("kill.prefix-model-validated")
-                    ref_text = gzip.decompress(blob)
+                    ref_text = gzip.decompress(blob_written)
                     got, pos = b"", 0
                     while pos < len(on_disk):
                         dz = zlib.decompressobj(wbits=31)
@@ -273,7 +288,7 @@ def check_case(case, ctx=None, only_points=None):
                         viol.append(("kill/disk-content-not-a-prefix-of-the-log/gz", f"killed after {k} bytes: decompressible content on disk ({len(got)} bytes) is not a prefix of the reference log text"))
                 else:
                     note("kill.prefix-model-validated")
-                    if on_disk != blob[:len(on_disk)] or len(on_disk) < min(k, len(blob)) - 1:
+                    if on_disk != blob_written[:len(on_disk)] or len(on_disk) < min(k, len(blob_written)) - 1:
                         viol.append(("kill/disk-content-not-a-prefix-of-the-log/plain", f"killed after {k} bytes: {len(on_disk)} bytes on disk, not the prefix of the reference log"))
             except subprocess.TimeoutExpired:
                 if ctx is not None: ctx.note_inconclusive("kill-run-timeout")
